@@ -97,7 +97,7 @@ func ruleCampaignShape(c *Ctx) {
 		c.saw(fnName(s.Fn))
 		construct := "put of leader key in " + fnName(s.Fn)
 		c.Check(s.Lease, rule, construct+" (lease)", "the leader record is attached to the campaigner's lease (WithLease)", P.instrPos(s.Op), "no WithLease option")
-		c.Check(s.hasCreateRevisionZero(s.Key), rule, construct+" (create-if-absent)", "If contains CreateRevision(leaderKey) == 0: a campaign succeeds only when no live leader record exists", P.instrPos(s.Op), fmt.Sprint(len(s.Cmps), " comparators, none is CreateRevision(leaderKey)=0"))
+		c.Check(s.hasCreateRevisionZero(P, s.Key), rule, construct+" (create-if-absent)", "If contains CreateRevision(leaderKey) == 0: a campaign succeeds only when no live leader record exists", P.instrPos(s.Op), fmt.Sprint(len(s.Cmps), " comparators, none is CreateRevision(leaderKey)=0"))
 		if s.Commit != nil {
 			evs := s.committedEvents()
 			c.need(rule, s.Fn, "successful return of campaign", func(ins ssa.Instruction) bool {
